@@ -277,9 +277,11 @@ def report_cells(rep, rule, results, where, group_of, floor):
     for g in sorted(groups):
         d = groups[g]
         if d['bad']:
-            (label, detail) = d['bad'][0]
-            more = '' if len(d['bad']) == 1 else ' (+%d more cells of this group: %s)' % (len(d['bad']) - 1, '; '.join(l for l, _ in d['bad'][1:4]))
-            rep.violation(rule, where, label, detail + more, key='%s|%s' % (rule, g), cells=d['ok'] + len(d['bad']))
+            # one finding per failing cell (keyed by the cell, so that a listed known finding never hides another cell of its group); a group with
+            # many failing cells is summarised after the first six
+            for i_, (label, detail) in enumerate(d['bad'][:6]):
+                more = '' if i_ or len(d['bad']) <= 6 else ' (+%d more cells of this group: %s)' % (len(d['bad']) - 6, '; '.join(l for l, _ in d['bad'][6:9]))
+                rep.violation(rule, where, label, detail + more, key='%s|%s' % (rule, label), cells=(d['ok'] + len(d['bad'])) if i_ == 0 else 1)
         else:
             rep.ok(rule, where, g, '%d cells re-parse to the intended tree' % d['ok'], cells=d['ok'], key='%s|%s' % (rule, g))
     rep.count(rule + '_cells', {'evaluated': n_ok + sum(len(d['bad']) for d in groups.values()), 'skipped_not_programs': n_skip})
